@@ -302,6 +302,27 @@ pub fn gof(seed: u64, n: usize) -> (Vec<Finding>, J) {
     if d > crit {
         out.push(finding("C14", "not_uniform:so2", format!("so2.angle: KS distance {d} > {crit}")));
     }
+    // a box whose first and last intervals coincide: every axis uniform on ITS OWN interval
+    let rv3 = oxmpl::base::space::RealVectorStateSpace::new(3, Some(vec![(-1.0, 1.0), (-5.0, 5.0), (-1.0, 1.0)])).unwrap();
+    let mut m0 = vec![];
+    let mut m1 = vec![];
+    let mut m2 = vec![];
+    for _ in 0..n {
+        let s = rv3.sample_uniform(&mut rng).unwrap();
+        m0.push(s.values[0]);
+        m1.push(s.values[1]);
+        m2.push(s.values[2]);
+    }
+    for (name, d) in [
+        ("rv3.coord0", ks(m0, |x| ((x + 1.0) / 2.0).clamp(0.0, 1.0))),
+        ("rv3.coord1", ks(m1, |x| ((x + 5.0) / 10.0).clamp(0.0, 1.0))),
+        ("rv3.coord2", ks(m2, |x| ((x + 1.0) / 2.0).clamp(0.0, 1.0))),
+    ] {
+        stats.push((name.to_string(), d));
+        if d > crit {
+            out.push(finding("C14", "not_uniform:rv_box", format!("{name}: KS distance {d} > {crit} (n = {n})")));
+        }
+    }
     // SO(2) bounds reaching beyond the circle are clamped by the constructor: uniform on the CLAMPED interval
     for (lo, hi) in [(-4.0f64, 4.0f64), (1.0, 5.0), (-7.0, -2.0)] {
         let sp = oxmpl::base::space::SO2StateSpace::new(Some((lo, hi))).unwrap();
